@@ -102,9 +102,9 @@ def run(ctx):
         if b % 3 == 0:
             jobs.append(("asan", plat, scs))
     # the timeout family apart, in small batches (a crash costs the re-run of the rest of the batch)
-    for b in range(max(1, nb // 2)):
+    for b in range(max(1, nb // 3)):
         plat = G.platform(ctx.sub_rng("tplat", b))
-        scs = [G.gen_c09(ctx.sub_rng("tsc", b, i), plat, timeouts=True) for i in range(6)]
+        scs = [G.gen_c09(ctx.sub_rng("tsc", b, i), plat, timeouts=True) for i in range(5)]
         jobs.append(("hooks", plat, scs))
         if b % 3 == 0:
             jobs.append(("asan", plat, scs))
